@@ -144,7 +144,7 @@ func ZZExecuteRawRepo(e *executor) (string, error) {
 		term, name = "\x00", func(n string) string { return n }
 	}
 	switch args[0] {
-	case "rev-parse", "update-ref", "commit-tree", "show", "hash-object":
+	case "rev-parse", "update-ref", "commit-tree", "show", "hash-object", "merge-base":
 		return zzRefCommand(e, s)
 	case "cat-file":
 		id, err := NewHash(last)
@@ -362,6 +362,30 @@ func zzRefCommand(e *executor, s *zzmem.Store) (string, error) {
 		}
 		s.SetRef(ref, newID)
 		return "", nil
+	case "merge-base":
+		if len(args) == 4 && args[1] == "--is-ancestor" {
+			anc, err1 := NewHash(args[2])
+			desc, err2 := NewHash(args[3])
+			if err1 != nil || err2 != nil || s.CommitInfo(anc) == nil || s.CommitInfo(desc) == nil {
+				return fail("fatal: Not a valid commit name")
+			}
+			if s.IsAncestor(desc, anc) {
+				return "", nil
+			}
+			return "", fmt.Errorf("%w when executing `git %s`: ", errors.New("exit status 1"), strings.Join(args, " "))
+		}
+		if len(args) == 3 {
+			a, err1 := NewHash(args[1])
+			b, err2 := NewHash(args[2])
+			if err1 != nil || err2 != nil || s.CommitInfo(a) == nil || s.CommitInfo(b) == nil {
+				return fail("fatal: Not a valid commit name")
+			}
+			if base := s.MergeBase(a, b); base != nil {
+				return base.String() + "\n", nil
+			}
+			return "", fmt.Errorf("%w when executing `git %s`: ", errors.New("exit status 1"), strings.Join(args, " "))
+		}
+		return fail("repomodel: merge-base form not modelled")
 	case "show":
 		// show -s --format=%B <commit>
 		if len(args) != 4 || args[1] != "-s" || args[2] != "--format=%B" {
